@@ -13,14 +13,125 @@ PRE = ('fax_l0', 'fmeth', 'stdspec', 'l1')
 BC = ('l0', 'l1_arith', 'l1_fun', 'ax_vec_from_refl', 'ax_f64_cloned')
 U = 'linalg::utils::'
 
-SPEC = t.SPEC + c01.SQ_UNIQUE + t.CHOL_SPEC + t.CHOL2_SPEC + t.LUS_SPEC + c01.LU_ONLY_SPEC + rec.REC_SPEC + r'''
+EXACT_SPEC = r'''
+/// (A x)[row] restricted to the first C columns
+pub open spec fn asum(a: Seq<f64>, n: int, row: int, x: Seq<f64>, cc: int) -> real decreases cc
+{ if cc <= 0 { 0real } else { asum(a, n, row, x, cc - 1) + rv(at2(a, n, row, cc - 1)) * rv(x[cc - 1]) } }
+pub open spec fn gsum(f: Seq<f64>, n: int, i: int, x: Seq<f64>, cc: int) -> real decreases cc
+{ if cc <= 0 { 0real } else { gsum(f, n, i, x, cc - 1) + lu_entry(f, n, i, cc - 1) * rv(x[cc - 1]) } }
+pub open spec fn osum(f: Seq<f64>, n: int, i: int, x: Seq<f64>, cc: int, kk: int) -> real decreases kk
+{ if kk <= 0 { 0real } else { osum(f, n, i, x, cc, kk - 1) + rv(at2(f, n, i, kk - 1)) * xsum(f, n, x, kk - 1, kk - 1, cc) } }
+
+pub proof fn lemma_a_g(a: Seq<f64>, f: Seq<f64>, piv: Seq<i32>, n: int, i: int, x: Seq<f64>, cc: int)
+    requires factored(a, f, piv, n, n), 0 <= i < n, 0 <= cc <= n
+    ensures asum(a, n, piv[i] as int, x, cc) == gsum(f, n, i, x, cc)
+    decreases cc
+{ if cc > 0 { lemma_a_g(a, f, piv, n, i, x, cc - 1); assert(lu_entry(f, n, i, cc - 1) == rv(at2(a, n, piv[i] as int, cc - 1))); } }
+
+pub proof fn lemma_osum_step(f: Seq<f64>, n: int, i: int, x: Seq<f64>, cc: int, kk: int)
+    requires 0 <= kk, 0 <= cc
+    ensures osum(f, n, i, x, cc + 1, kk) == osum(f, n, i, x, cc, kk) + lusum(f, n, i, cc, imin(kk, cc + 1)) * rv(x[cc])
+    decreases kk
+{
+    if kk > 0 {
+        lemma_osum_step(f, n, i, x, cc, kk - 1);
+        let k = kk - 1;
+        let fik = rv(at2(f, n, i, k)); let inner = xsum(f, n, x, k, k, cc); let xc = rv(x[cc]); let fkc = rv(at2(f, n, k, cc));
+        if cc >= k {
+            assert(xsum(f, n, x, k, k, cc + 1) == inner + xc * fkc);
+            assert(imin(kk, cc + 1) == kk && imin(kk - 1, cc + 1) == kk - 1);
+            let l0 = lusum(f, n, i, cc, kk - 1);
+            assert(lusum(f, n, i, cc, kk) == l0 + fik * fkc);
+            assert(fik * (inner + xc * fkc) + l0 * xc == fik * inner + (l0 + fik * fkc) * xc) by(nonlinear_arith);
+        } else {
+            assert(xsum(f, n, x, k, k, cc + 1) == 0real);
+            assert(inner == 0real);
+            assert(imin(kk, cc + 1) == cc + 1 && imin(kk - 1, cc + 1) == cc + 1);
+        }
+    } else {
+        assert(imin(0, cc + 1) == 0); assert(lusum(f, n, i, cc, 0) == 0real); assert(0real * rv(x[cc]) == 0real) by(nonlinear_arith);
+    }
+}
+
+pub proof fn lemma_g_split(f: Seq<f64>, n: int, i: int, x: Seq<f64>, cc: int)
+    requires 0 <= i, 0 <= cc
+    ensures gsum(f, n, i, x, cc) == xsum(f, n, x, i, i, cc) + osum(f, n, i, x, cc, i)
+    decreases cc
+{
+    if cc > 0 {
+        let c = cc - 1;
+        lemma_g_split(f, n, i, x, c);
+        lemma_osum_step(f, n, i, x, c, i);
+        let xc = rv(x[c]); let fic = rv(at2(f, n, i, c)); let fcc = rv(at2(f, n, c, c));
+        if c >= i {
+            assert(imin(i, c + 1) == i && imin(i, c) == i);
+            assert(xsum(f, n, x, i, i, c + 1) == xsum(f, n, x, i, i, c) + xc * fic);
+            let l = lusum(f, n, i, c, i);
+            assert((l + fic) * xc == xc * fic + l * xc) by(nonlinear_arith);
+        } else {
+            assert(imin(i, c + 1) == c + 1 && imin(i, c) == c);
+            assert(xsum(f, n, x, i, i, c + 1) == 0real); assert(xsum(f, n, x, i, i, c) == 0real);
+            let l = lusum(f, n, i, c, c);
+            assert(lusum(f, n, i, c, c + 1) == l + fic * fcc);
+            assert((l + fcc * fic) * xc == (l + fic * fcc) * xc) by(nonlinear_arith);
+        }
+    } else {
+        lemma_osum_zero(f, n, i, x, i);
+    }
+}
+pub proof fn lemma_osum_zero(f: Seq<f64>, n: int, i: int, x: Seq<f64>, kk: int) requires 0 <= kk
+    ensures osum(f, n, i, x, 0, kk) == 0real decreases kk
+{ if kk > 0 { lemma_osum_zero(f, n, i, x, kk - 1); assert(xsum(f, n, x, kk - 1, kk - 1, 0) == 0real); assert(rv(at2(f, n, i, kk - 1)) * 0real == 0real) by(nonlinear_arith); } }
+
+pub proof fn lemma_osum_y(f: Seq<f64>, n: int, i: int, x: Seq<f64>, y: Seq<f64>, kk: int)
+    requires 0 <= kk <= n, forall|k: int| 0 <= k < kk ==> xsum(f, n, x, k, k, n) == rv(#[trigger] y[k])
+    ensures osum(f, n, i, x, n, kk) == xsum(f, n, y, i, 0, kk)
+    decreases kk
+{ if kk > 0 { lemma_osum_y(f, n, i, x, y, kk - 1); assert(xsum(f, n, x, kk - 1, kk - 1, n) == rv(y[kk - 1]));
+    let a = rv(at2(f, n, i, kk - 1)); let b = rv(y[kk - 1]); assert(a * b == b * a) by(nonlinear_arith); } }
+
+/// P A = L U,  (unit lower) y = P b,  U x = y  with non-zero pivots  ==>  (A x)[p_i] = b[p_i] for every row
+pub proof fn theorem_lu_solves(a: Seq<f64>, f: Seq<f64>, piv: Seq<i32>, n: int, b: Seq<f64>, y: Seq<f64>, x: Seq<f64>, i: int)
+    requires factored(a, f, piv, n, n), lu_fwd(f, n, piv, b, y, n), lu_bwd(f, n, y, x, 0), 0 <= i < n,
+             forall|k: int| 0 <= k < n ==> rv(#[trigger] at2(f, n, k, k)) != 0real
+    ensures asum(a, n, piv[i] as int, x, n) == rv(b[piv[i] as int])
+{
+    lemma_a_g(a, f, piv, n, i, x, n);
+    lemma_g_split(f, n, i, x, n);
+    assert forall|k: int| 0 <= k < n implies xsum(f, n, x, k, k, n) == rv(#[trigger] y[k]) by {
+        lemma_xsum_low(f, n, x, k, k, n);
+        assert(rv(at2(f, n, k, k)) != 0real);
+        assert(rv(at2(f, n, k, k)) * rv(x[k]) + xsum(f, n, x, k, k + 1, n) == rv(y[k]));
+        let p = rv(at2(f, n, k, k)); let q = rv(x[k]); assert(p * q == q * p) by(nonlinear_arith);
+    }
+    lemma_osum_y(f, n, i, x, y, i);
+    assert(imin(i, n) == i);
+    assert(rv(y[i]) == rv(b[piv[i] as int]) - xsum(f, n, y, i, 0, i));
+}
+
+/// the LU route is exact over the reals: with non-zero pivots every (permuted) row of A x = b holds
+pub open spec fn lu_exact(a: Seq<f64>, n: int, b: Seq<f64>, x: Seq<f64>, f: Seq<f64>, piv: Seq<i32>) -> bool {
+    (forall|k: int| 0 <= k < n ==> rv(#[trigger] at2(f, n, k, k)) != 0real) ==> (forall|i: int| 0 <= i < n ==> asum(a, n, #[trigger] piv[i] as int, x, n) == rv(b[piv[i] as int]))
+}
+pub proof fn lemma_lu_route_exact(a: Seq<f64>, f: Seq<f64>, piv: Seq<i32>, n: int, b: Seq<f64>, x: Seq<f64>)
+    requires factored(a, f, piv, n, n), lu_solved(f, n, piv, b, x)
+    ensures lu_exact(a, n, b, x, f, piv)
+{
+    if forall|k: int| 0 <= k < n ==> rv(#[trigger] at2(f, n, k, k)) != 0real {
+        let y = choose|y: Seq<f64>| y.len() == n && #[trigger] lu_fwd(f, n, piv, b, y, n) && lu_bwd(f, n, y, x, 0);
+        assert forall|i: int| 0 <= i < n implies asum(a, n, #[trigger] piv[i] as int, x, n) == rv(b[piv[i] as int]) by { theorem_lu_solves(a, f, piv, n, b, y, x, i); }
+    }
+}
+'''
+SPEC = t.SPEC + c01.SQ_UNIQUE + t.CHOL_SPEC + t.CHOL2_SPEC + t.LUS_SPEC + c01.LU_ONLY_SPEC + rec.REC_SPEC + EXACT_SPEC + r'''
+
 /// the test that routes a system to the Cholesky solver
 pub open spec fn pd_test(m: Seq<f64>, n: int) -> bool { sym_eps(m, n) && diag_pos(m, n) }
 /// x solves the system with matrix a and right-hand side b by one of the two routes (property C01: the route is
 /// Cholesky exactly when the test passes and the factorisation meets no non-positive pivot)
 pub open spec fn solved_by_route(a: Seq<f64>, n: int, b: Seq<f64>, x: Seq<f64>) -> bool {
     (pd_test(a, n) && (exists|l: Seq<f64>| l.len() == n * n && #[trigger] chol_rows(a, l, n, n) && chol_zero(l, n, n, 0) && chol_solved(l, n, x, b)))
-    || ((!pd_test(a, n) || !no_bad_pivot(a, n)) && (exists|f: Seq<f64>, piv: Seq<i32>| f.len() == n * n && is_perm32(piv, n) && bounded(f, n, n) && factored(a, f, piv, n, n) && #[trigger] lu_solved(f, n, piv, b, x)))
+    || ((!pd_test(a, n) || !no_bad_pivot(a, n)) && (exists|f: Seq<f64>, piv: Seq<i32>| f.len() == n * n && is_perm32(piv, n) && bounded(f, n, n) && factored(a, f, piv, n, n) && #[trigger] lu_solved(f, n, piv, b, x) && lu_exact(a, n, b, x, f, piv)))
 }
 '''
 UNWRAP_M = ('is_square(m).unwrap()', 'match is_square(m) { Ok(v_) => v_, Err(_) => ::core::panicking::panic("unwrap") }', 'R2b')
@@ -44,7 +155,7 @@ UNITS = [
 SOLVE_HINT_CHOL = ('({ proof { assert(chol_post(a@, chol, n as int)); } let x_ = cholesky_solve(&l, b); proof { assert(chol_rows(a@, l@, n as int, n as int)); assert(solved_by_route(a@, n as int, b@, x_@)); } x_ })')
 SOLVE_HINT_LU = ('({ let x_ = lu_solve(&lu, &piv, b); proof { '
                  'if pd_ { assert(chol_post(a@, chol, n as int)); } '
-                 'assert(is_perm32(piv@, n as int)); assert(bounded(lu@, n as int, n as int)); assert(factored(a@, lu@, piv@, n as int, n as int)); assert(lu_solved(lu@, n as int, piv@, b@, x_@)); assert(solved_by_route(a@, n as int, b@, x_@)); } x_ })')
+                 'assert(is_perm32(piv@, n as int)); assert(bounded(lu@, n as int, n as int)); assert(factored(a@, lu@, piv@, n as int, n as int)); assert(lu_solved(lu@, n as int, piv@, b@, x_@)); lemma_lu_route_exact(a@, lu@, piv@, n as int, b@, x_@); assert(solved_by_route(a@, n as int, b@, x_@)); } x_ })')
 solve = Fn(U + 'solve', ret='x', level='L1', valid='a@.len() == b@.len() * b@.len()', panics={1: 'REJECT'},
            requires=['C01.solve.machine:: 0 < b@.len() <= 0x7fff_ffff && a@.len() <= 0x7fff_ffff && b@.len() * b@.len() <= usize::MAX'],
            ensures=['C01.solve.valid:: a@.len() == b@.len() * b@.len()', 'C01.solve.len:: x@.len() == b@.len()',
@@ -131,7 +242,7 @@ solve_sys = Fn(U + 'solve_sys', ret='x', level='L1', valid=SYSV, panics={1: 'REJ
                ('cholesky_solve(&l, &b[(i * n)..((i + 1) * n)])', '({ proof { assert(chol_post(a@, chol, n as int)); } let x_ = cholesky_solve(&l, &b[(i * n)..((i + 1) * n)]); '
                 'proof { assert(chol_rows(a@, l@, n as int, n as int)); assert(solved_by_route(a@, n as int, colv(b0, n as int, nsys as int, i as int), x_@)); } x_ })', 'R31'),
                ('lu_solve(&lu, &piv, &b[(i * n)..((i + 1) * n)])', '({ let x_ = lu_solve(&lu, &piv, &b[(i * n)..((i + 1) * n)]); '
-                'proof { assert(lu_solved(lu@, n as int, piv@, colv(b0, n as int, nsys as int, i as int), x_@)); assert(solved_by_route(a@, n as int, colv(b0, n as int, nsys as int, i as int), x_@)); } x_ })', 'R31')],
+                'proof { assert(lu_solved(lu@, n as int, piv@, colv(b0, n as int, nsys as int, i as int), x_@)); lemma_lu_route_exact(a@, lu@, piv@, n as int, colv(b0, n as int, nsys as int, i as int), x_@); assert(solved_by_route(a@, n as int, colv(b0, n as int, nsys as int, i as int), x_@)); } x_ })', 'R31')],
                requires=['C01.solve_sys.machine:: 0 < a@.len() <= 0x7fff_ffff && b@.len() <= 0x7fff_ffff'],
                ensures=['C01.solve_sys.valid:: ' + SYSV, 'C01.solve_sys.len:: x@.len() == b@.len()',
                         'C01.solve_sys.columns:: forall|n: int| 0 < n && n * n == a@.len() ==> #[trigger] sys_solved(a@, n, b@, x@, (b@.len() as int) / n, (b@.len() as int) / n)'],
@@ -180,6 +291,6 @@ UNITS.append(Unit('C01_invert', ('C01', 'C11'), [invert], use=[c01.is_square, so
 
 # ---------------------------------------------------------------- Matrix::solve(&Vector): the LU route at Matrix level
 UNITS.append(Unit('C01_matrix_solve', ('C01', 'C11'), [t.mlu_solve, t.msolve], use=core.core_stubs() + [rec.mlu_full()], types=core.TYPES, type_spec=core.TYPE_SPEC,
-                  spec=t.SPEC + t.LUS_SPEC + c01.LU_ONLY_SPEC + rec.REC_SPEC, nra=t.NRA, preludes=PRE, broadcast=BC, level='L1', rlimit=100,
+                  spec=t.SPEC + t.LUS_SPEC + c01.LU_ONLY_SPEC + rec.REC_SPEC + EXACT_SPEC, nra=t.NRA, preludes=PRE, broadcast=BC, level='L1', rlimit=100,
                   notes='Matrix-level lu_solve (Vector right-hand side) satisfies the same equations as the slice-level routine; Matrix::solve(&Vector) is lu + lu_solve: '
                         'P A = L U, (unit lower) y = P b, U x = y; non-square / mismatched systems rejected'))
